@@ -159,9 +159,14 @@ fn start_history(hist: &Value, tmpdir: &str, dict: &Dict) -> Result<Live, Value>
         std::fs::create_dir_all(tmpdir).ok();
         let path = PathBuf::from(format!("{}/img_{}_{}.cfb", tmpdir, std::process::id(), hid.replace('/', "_")));
         std::fs::write(&path, vec![0xABu8; 20_000]).map_err(res_err)?;
+        // cfb::create(path) must leave exactly a new, empty compound file at the path.  The history
+        // itself then starts like every other configuration (create on the backend, no reopen in
+        // between - a reopen would be an extra step the other configurations do not take): the
+        // file is NOT truncated again, so anything cfb::create(path) left behind stays in the bytes.
         let cf0 = cfb::create(&path).map_err(res_err)?;
-        let f = cf0.into_inner();
-        let cf = open_with(Any::File(f), false, maxbuf).map_err(res_err)?;
+        drop(cf0);
+        let f = std::fs::OpenOptions::new().read(true).write(true).open(&path).map_err(res_err)?;
+        let cf = cfb::CompoundFile::create_with_version(cfb::Version::V4, Any::File(f)).map_err(res_err)?;
         Ok(Live { cf: Some(cf), snap: Snap::File(path), handles: HashMap::new(), maxbuf, chunks: vec![] })
     } else {
         let ver = if hist["ver"].as_u64() == Some(3) { cfb::Version::V3 } else { cfb::Version::V4 };
